@@ -4,6 +4,7 @@
    run_hist over one datastore, starting from an arbitrary datastore s0. *)
 From ToughV Require Export Model.Base Model.Sig Model.Deleg Model.Client.
 From ToughV Require Import Proofs.ClientP Proofs.RollbackP.
+From ToughV Require Export Proofs.ClientP Proofs.DelegLoadP Proofs.LivenessP Proofs.LockoutP.
 Export RollbackP.
 
 (* If cycle i succeeded and a later cycle j succeeded, and every root that any cycle in between
@@ -56,3 +57,36 @@ Print Assumptions C03_rollback_refuted.
 Example C03_example : results fixed f5_history = [Some (2, 5); None]
                       /\ results original f5_history = [Some (2, 5); Some (2, 4)].
 Proof. split; [exact f5_fixed|exact f5_original]. Qed.
+
+(* "... so the protection never locks a client out of a repository that moves forward": after ANY
+   history of cycles over one datastore (any servers, any shipped roots, any injected fault, from any
+   initial datastore s0), an uninterrupted cycle whose clock is not behind any earlier one succeeds
+   against every repository that is valid under the root its walk ends with (documents fit their
+   limits and pins, verify, are unexpired; delegated roles form a loadable tree) and whose timestamp,
+   snapshot (with its targets entry) and targets are not older than any document that verifies under
+   that root and that the datastore initially held or any earlier cycle was served
+   ([known_ts] etc.; [ts_accepted ... store0 ...] is acceptability seen from an empty datastore). *)
+Theorem C03_never_locked_out : forall h s0 c r ts sn t0 t,
+  cy_fault c = None ->
+  (forall tm, known_time s0 h tm -> (tm <= cy_now c)%Z) ->
+  final_root fixed c = Some r ->
+  (c_enforce (cy_cfg c) = true -> (cy_now c <= r_expires r)%Z) ->
+  ts_accepted (cy_cfg c) r (cy_srv c) (cy_now c) store0 ts ->
+  snap_accepted (cy_cfg c) r ts (cy_srv c) (cy_now c) store0 sn ->
+  tgt_accepted (cy_cfg c) r sn (cy_srv c) (cy_now c) store0 t0 ->
+  tgt_tree (cy_cfg c) (cy_srv c) sn (r_cs r) t0 t -> validate t = true ->
+  (forall x, known_ts s0 h x -> root_verify r 3 (ts_sigs x) = true -> ts_version x <= ts_version ts) ->
+  (forall x, known_snap s0 h x -> root_verify r 1 (sn_sigs x) = true -> snap_rollback_ok x sn) ->
+  (forall x, known_tgt s0 h x -> root_verify r 2 (tg_sigs x) = true -> tg_version x <= tg_version t0) ->
+  exists w', run_cycle fixed c (end_store fixed h s0)
+             = (Ok {| rp_root := r; rp_ts := ts; rp_snap := sn; rp_targets := t |}, w').
+Proof. exact never_locked_out. Qed.
+Print Assumptions C03_never_locked_out.
+
+(* the premises are satisfiable: see never_locked_out_example in Proofs/LockoutP.v (a successful cycle,
+   an interrupted one, then the newer repository) *)
+Example C03_never_locked_out_example :
+  exists w', run_cycle fixed (w_cyc false 6 3 None)
+               (end_store fixed [w_cyc false 5 3 None; w_cyc false 6 3 (Some (1%nat, 2))] store0)
+             = (Ok {| rp_root := w_root 1 3; rp_ts := w_ts 6 5 3; rp_snap := w_snap 5; rp_targets := w_targets |}, w').
+Proof. exact never_locked_out_example. Qed.
